@@ -57,6 +57,7 @@ type c31Dir struct {
 	delivered int64
 	rerr      error
 	reads     int
+	readsAfterErr int
 	limit     int64 // MITM: no plaintext at or beyond this position may be delivered (-1 = no limit)
 	limitWhy  string
 }
@@ -177,7 +178,10 @@ func (d *c31Dir) spawnReader(s *sched, rc *kit.RunCtx, sc *network.SecureConn) {
 				class, sig, detail := "", "", ""
 				want := streamBytes(d.seed, d.delivered, n)
 				switch {
-				case d.limit >= 0 && d.delivered+int64(n) > d.limit:
+				case d.limit >= 0 && d.delivered+int64(n) > d.limit && d.rerr == nil:
+					// (once the reader has been told about the manipulation by an error, reading on may legitimately
+					// yield the genuine continuation - e.g. after a rejected replayed frame; then only the content
+					// rule below applies: what is delivered is the written stream, byte for byte, without holes)
 					class, sig = "tamper-undetected", d.limitWhy
 					detail = fmt.Sprintf("%s: %d plaintext bytes delivered at position %d although the ciphertext was manipulated (%s) at plaintext position %d", d.name, n, d.delivered, d.limitWhy, d.limit)
 				case d.delivered+int64(n) > d.written && d.wdone:
@@ -204,8 +208,16 @@ func (d *c31Dir) spawnReader(s *sched, rc *kit.RunCtx, sc *network.SecureConn) {
 				d.delivered += int64(n)
 			}
 			if err != nil {
-				d.rerr = err
-				return
+				if d.rerr == nil {
+					d.rerr = err
+				}
+				// A reader that keeps reading after an error (a retry loop, a buffered reader) must not be handed
+				// later frames either: what was delivered stays a prefix of what was written. A few more reads.
+				d.readsAfterErr++
+				if d.readsAfterErr > 6 || err == io.EOF || d.limit < 0 {
+					return
+				}
+				rc.Probe("read_again_after_error")
 			}
 		}
 	})
